@@ -190,11 +190,11 @@ theorem handler_marked_blocked (s : State E) (hh : isHandler s = true) (hm : s.m
 
 /-- the state after the finalizer-adding turn -/
 def addState (env : Env) (s : State E) : State E :=
-  { s with blocked := true, now := s.now + env.lat, pending := true, writes := s.writes + cp env + 1 }
+  { s with blocked := true, now := s.now + latS env, pending := true, writes := s.writes + cp env + 1 }
 
 /-- the state after the turn that removes the unneeded finalizer -/
 def remState (env : Env) (s : State E) (g : Bool) : State E :=
-  { s with blocked := false, gone := g, now := s.now + env.lat, pending := !g, writes := s.writes + cp env + 1 }
+  { s with blocked := false, gone := g, now := s.now + latS env, pending := !g, writes := s.writes + cp env + 1 }
 
 /-- RANKING. Every turn of the loop that consumes an event strictly decreases the bound. -/
 theorem step_decreases (env : Env) (wf : WF env) (hfin : AllFinal env) (s : State E)
@@ -206,7 +206,7 @@ theorem step_decreases (env : Env) (wf : WF env) (hfin : AllFinal env) (s : Stat
   have hg' : s.gone = false := by simpa using hg
   have hbs : bound env s = (if adjusting env s then 1 else 0) + core env s := by
     unfold bound; simp [hp, hg']
-  have hlat : s.now ≤ s.now + env.lat := int_le_add s.now env.lat wf.lat
+  have hlat : s.now ≤ s.now + latS env := int_le_add s.now (latS env) (latS_nonneg env wf)
   by_cases hadd : (decisionOf env s).add = true
   · -- the finalizer is added; the handlers wait for the next event
     have h := hadd
